@@ -1,8 +1,11 @@
 #!/usr/bin/env python3
 """Run the registered checks against the seeded breaking changes in /verif/seeded (development aid).
-For each seed: git -C /repo apply patch.diff; run the check of its property; git -C /repo checkout -- ."""
+For each seed: git -C /repo apply patch.diff; run the check of its property; git -C /repo checkout -- .
+With SEEDTEST_WORKTREE=<dir> (a scratch worktree of /repo at HEAD with Cargo.lock copied in) the patch is applied there and the
+check runs with AX_REPO=<dir>, so /repo is left alone (used while another run reads /repo)."""
 import json, os, subprocess, sys, time
 V = "/verif"
+REPO = os.environ.get("SEEDTEST_WORKTREE", "/repo")
 seeds = sys.argv[1:] or sorted(os.listdir(os.path.join(V, "seeded")))
 out = {}
 logp = os.path.join(V, ".cache", "seedtest.log")
@@ -10,19 +13,19 @@ for s in seeds:
     d = os.path.join(V, "seeded", s)
     meta = json.load(open(os.path.join(d, "meta.json")))
     prop = meta["property"]
-    subprocess.run(["git", "-C", "/repo", "checkout", "--", "."], check=True)
-    r = subprocess.run(["git", "-C", "/repo", "apply", os.path.join(d, "patch.diff")], capture_output=True, text=True)
+    subprocess.run(["git", "-C", REPO, "checkout", "--", "."], check=True)
+    r = subprocess.run(["git", "-C", REPO, "apply", os.path.join(d, "patch.diff")], capture_output=True, text=True)
     if r.returncode != 0:
         out[s] = dict(error="patch does not apply: " + r.stderr[-200:])
         continue
     t0 = time.time()
     try:
         c = subprocess.run(["python3", os.path.join(V, "run/check.py"), prop, "--tier", "quick"], capture_output=True, text=True, cwd=V,
-                           env=dict(os.environ, AXV_EVIDENCE_DIR="/var/tmp/seed_evidence"))
+                           env=dict(os.environ, AXV_EVIDENCE_DIR="/var/tmp/seed_evidence", **({"AX_REPO": REPO} if REPO != "/repo" else {})))
         lines = [l for l in c.stdout.split("\n") if l.startswith(("VIOLATION", "UNDECIDED", prop + ":"))]
         out[s] = dict(property=prop, exit=c.returncode, wall_s=round(time.time() - t0), lines=lines[:6], stderr=c.stderr[-300:])
     finally:
-        subprocess.run(["git", "-C", "/repo", "checkout", "--", "."], check=True)
+        subprocess.run(["git", "-C", REPO, "checkout", "--", "."], check=True)
     with open(logp, "a") as f:
         f.write(json.dumps({s: out[s]}) + "\n")
     print(s, out[s].get("exit"), out[s].get("lines", out[s].get("error")), flush=True)
